@@ -82,6 +82,10 @@ var provTemplates = []struct {
 	// one right side spread over several names, by var and by assignment
 	{"multi-var-spread", "var t, u = %s\n[t, u]", true}, {"multi-let-spread", "t, u = (%s)\n[t, u]", true}, {"multi-var-spread3", "var t, u, w = %s\nt", true},
 	{"multi-var-spread-in-func", "func() {\nvar t, u = %s\nreturn [u, t]\n}()", true},
+	// the operand as a map KEY: read, store, literal, delete (an unhashable key is nil / an error whatever its provenance)
+	{"key-read", "km = {\"k\": 1}\nkm[%s]", false}, {"key-store", "km = {}\nkm[%s] = 1\nlen(km)", false}, {"key-literal", "km = {%s: 1}\nlen(km)", false},
+	{"key-delete", "km = {\"k\": 1}\ndelete(km, %s)\nlen(km)", false}, {"key-typed-store", "km = make(map[interface]int64)\nkm[%s] = 1\nlen(km)", false},
+	{"key-comma-ok", "km = {\"k\": 1}\nv, ok = km[%s]\n[v, ok]", false}, {"key-in-func", "func(k) {\nkm = {}\nkm[k] = 1\nreturn len(km)\n}(%s)", false},
 	// the two-value map read and what an assignment does with a module value
 	{"comma-ok-present-nil", "v, ok = %s[\"k\"]\n[v, ok]", false}, {"comma-ok-list", "v, ok = %s[0]\n[v, ok]", false}, {"comma-ok-missing", "v, ok = %s[\"zz\"]\n[v, ok]", false},
 	{"module-copy-let", "c = %s\nc.b = 2\n[vmodule.b, c.b]", false}, {"module-copy-var", "var c = %s\nc.b = 2\n[vmodule.b, c.b]", false},
